@@ -8,7 +8,7 @@ muts = json.load(open(ST.MUTANTS))['mutants']
 props = sys.argv[1:] or sorted({m['prop'] for m in muts})
 jobs = [m for m in muts if m['prop'] in props]
 tally = {}
-with ThreadPoolExecutor(max_workers=12) as ex:
+with ThreadPoolExecutor(max_workers=int(__import__("os").environ.get("WORKERS", "12"))) as ex:
     for mut, verdict, out in ex.map(lambda m: ST._run_edit(m['prop'], '/repo', m), jobs):
         extra = ''
         if verdict not in ('detected',):
